@@ -98,6 +98,18 @@ CLAIMED = {
         note="Round-trip and fixed-point laws are metamorphic (evaluated on the real parser/printer); the TLA+ lexer is the independent oracle for string values. A programmatic block node whose value no block string denotes is outside the statement.",
         technique="bounded-exhaustive enumeration of string values + TLC evaluation of printed literals/documents against Lexical.tla",
     ),
+    "C11": dict(
+        category="model_checking",
+        text=("VisitContract.tla defines the documented contract of visit() recursively (RefVisit: call log with phase/node/key/path/ancestor count/parent, "
+              "outcome, result tree; skip/break/remove/replace on enter and leave; lists as levels of their own). Real ASTs of 45 node kinds (kitchen sinks + "
+              "grammar-generated documents incl. experimental syntaxes) are visited by scripted visitors with 0..3 decision points (incl. the root, list "
+              "items, leave); the tree handed to TLC comes from reflection over dataclass fields ordered by source position, not from the library's key "
+              "table. TLC compares log, outcome and result tree; Python checks the input tree is untouched, idle visitors get the identical object back and "
+              "non-editing visitors run in parallel see the call sequence they see alone."),
+        design_ref="DESIGN.md 5/C11",
+        note="After BREAK only the call log is compared; node identity across rebuilt nodes is (kind, loc); the I-spec VisitLoop of the design is not built (the P-spec decides).",
+        technique="TLC evaluation of recorded visit() runs against the recursive contract VisitContract.tla",
+    ),
     "C09": dict(
         category="model_checking",
         text=("TLC checks the grammar theorems (spans disjoint/ordered with ignored gaps, filler insertion at every boundary invisible, Strip laws) on every string "
